@@ -36,11 +36,45 @@ def may_raise_formatting(node) -> bool:
                for x in ast.walk(node))
 
 
+LOG_METHODS = ("debug", "info", "warning", "warn", "error", "critical", "exception", "log")
+
+
+def is_logger_expr(e) -> bool:
+    """an expression that denotes a logger: the logging module, the store's logger, logging.getLogger(...), or a choice of these"""
+    t = ast.unparse(e)
+    if t in ("logging", "self.fhs_logger") or t.startswith("logging.getLogger("):
+        return True
+    if isinstance(e, ast.IfExp):
+        return is_logger_expr(e.body) and is_logger_expr(e.orelse)
+    return False
+
+
+def is_logger_assign(st) -> bool:
+    return isinstance(st, ast.Assign) and len(st.targets) == 1 and isinstance(st.targets[0], ast.Name) and is_logger_expr(st.value)
+
+
+def _logger_local(name_node) -> bool:
+    """a local name that, in its function, is only ever assigned logger expressions (`wait_logger = self.fhs_logger`)"""
+    fn = name_node
+    while fn is not None and not isinstance(fn, (ast.FunctionDef, ast.AsyncFunctionDef)):
+        fn = getattr(fn, "_parent", None)
+    if fn is None:
+        return False
+    if name_node.id in {a.arg for a in fn.args.args + fn.args.kwonlyargs}:
+        return False
+    stores = [a for a in ast.walk(fn) if isinstance(a, (ast.Assign, ast.AugAssign, ast.AnnAssign, ast.For, ast.With, ast.NamedExpr))
+              and any(isinstance(x, ast.Name) and x.id == name_node.id and isinstance(x.ctx, ast.Store) for x in ast.walk(a))]
+    return bool(stores) and all(is_logger_assign(a) for a in stores)
+
+
 def is_logging_stmt(st) -> bool:
     if isinstance(st, ast.Expr) and isinstance(st.value, ast.Call):
         f = ast.unparse(st.value.func)
         if may_raise_formatting(st.value):
             return False
+        fn_ = st.value.func
+        if isinstance(fn_, ast.Attribute) and fn_.attr in LOG_METHODS and isinstance(fn_.value, ast.Name) and _logger_local(fn_.value):
+            return True
         return f.startswith("logging.") or f.startswith("self.fhs_logger.") or f == "print"
     if isinstance(st, ast.Expr) and isinstance(st.value, ast.Constant):
         return True
